@@ -212,7 +212,7 @@ fn lag(rng: &mut Rng, i: u64) -> String {
 }
 
 pub fn generate(rng: &mut Rng, thorough: bool) -> Vec<String> {
-    let (ns, nb, nl) = if thorough { (1500, 300, 20) } else { (240, 50, 4) };
+    let (ns, nb, nl) = if thorough { (4000, 800, 40) } else { (500, 100, 8) };
     let mut v = Vec::new();
     for i in 0..ns { v.push(small(rng, i)); }
     for i in 0..nb { v.push(batches(rng, i)); }
